@@ -64,6 +64,7 @@ IDIOMS = {
     'I27': 'X.iter().map(|tx| tx.hash).collect::<Vec<sha256d::Hash>>()  =>  idiom_tx_hashes(&X)   (the hash field of every element, in order)',
     'I28': '(0..N).map(|_| E).collect()  [tail expression of a fn returning Result<Vec<T>>]  =>  { let mut v__ = Vec::new(); for i__ in 0..N { let x__ = E?; v__.push(x__); } Ok(v__) }   and   (0..N).map(|_| E).collect::<Result<Vec<T>>>()?  =>  { let mut v__: Vec<T> = Vec::new(); for i__ in 0..N { let x__ = E?; v__.push(x__); } v__ }   (collect() into a Result stops at the first Err and returns it: the same early return)',
     'I29': 'X.into_par_iter().map(|P| E).collect()  =>  { let mut v__ = Vec::new(); let xs__ = X; for P in xs__ { let y__ = E; v__.push(y__); } v__ }   (rayon: collect() of an indexed parallel map yields the results in input order, E applied once per element)',
+    'I31': 'X.as_ref() == [0u8; 32]  =>  idiom_is_zero32(&X)   (a 32-byte hash compared with the all-zero array)',
     'I30': 'for X in [A, B, ..] {  =>  for i__X in 0..[A, B, ..].len() { let X = [A, B, ..][i__X];   (iteration over an array literal by value, in order)',
     'I24': 'PATH(ARGS).expect(MSG)  =>  idiom_expect(PATH(ARGS), MSG)   (Result::expect: returns only when the result is Ok, panics otherwise)',
     'A1': 'abstract-expression: `expr` => havoc::<T>() (unconstrained value)',
@@ -779,6 +780,11 @@ def apply_idiom(ed, text, base, body_rel, loops, rest, item_id, log, rel, src, r
                 new = 'idiom_retain_key_range(&mut %s, %s, %s);' % (h2.group(1), h2.group(3), h2.group(4))
             else:
                 raise GenError('I19 shape mismatch: %s' % flat)
+        elif rule == 'I31':
+            h = re.match(r'^([\w\.]+)\.as_ref\(\) == \[0u8; 32\]$', flat)
+            if not h:
+                raise GenError('I31 shape mismatch: %s' % flat)
+            new = 'idiom_is_zero32(&%s)' % h.group(1)
         elif rule == 'I11':
             h = re.match(r'^([\w\.]+)\.to_le_bytes\(\)$', flat)
             if not h:
